@@ -45,6 +45,13 @@ pub assume_specification[u64::next_multiple_of](x: u64, m: u64) -> (r: u64)
     ensures r % m == 0, r >= x, r - x < m;
 
 }
+verus! {
+// [trusted] <String as From<&str>>::from copies the characters (R6b: Verus accepts String::from without giving it a meaning)
+#[verifier::external_body]
+pub fn prelude_string_from(s: &str) -> (r: String)
+    ensures r@ == s@
+{ String::from(s) }
+}
 use vstd::std_specs::hash::*;
 use std::collections::HashMap;
 use std::sync::Arc;
